@@ -43,7 +43,7 @@ Definition hs_phaseA (v : variant) (k : cfg) (c kind x : N) (s : st) : st * opti
 
 Definition hs_rejected (kind x : N) : bool := negb ((kind =? 0) && (0 <? x)) && negb (kind =? 1).
 Definition write_ok (c : N) (s : st) : bool := negb (mem c (closed s) || mem c (wfail s)).
-Definition hs_block (isCtl : bool) (r' : ctl) : bool := isCtl && c_auth r' && (0 <? c_cid r').
+Definition hs_block (kind x : N) (isCtl : bool) (r' : ctl) : bool := (kind =? 0) && (0 <? x) && isCtl && c_auth r' && (0 <? c_cid r').
 
 (* B: old-connection cleanup and UpdateAuth, on whatever the registry contains by then *)
 Definition hs_old (c X : N) (s : st) : option N :=
@@ -58,7 +58,7 @@ Definition handshake_seq (v : variant) (k : cfg) (c kind x : N) (isCtl : bool) (
   | (s2, Some r') =>
       if hs_rejected kind x then (s2, (true, 0))
       else if negb (write_ok c s2) then (s2, (true, 0))
-      else if hs_block isCtl r' then (hs_phaseB v c (c_cid r') s2, (false, 0))
+      else if hs_block kind x isCtl r' then (hs_phaseB v c (c_cid r') s2, (false, 0))
       else (s2, (false, 0))
   end.
 
@@ -92,7 +92,7 @@ Definition step_inj (v : variant) (k : cfg) (s : st) (o : op) (inj : option (N *
             let f := f0 || f1 in
             if hs_rejected kind x then (s4, (true, 0), f)
             else if negb wok then (s4, (true, 0), f)
-            else if hs_block isCtl r' then (hs_phaseB v c (c_cid r') s4, (false, 0), f)
+            else if hs_block kind x isCtl r' then (hs_phaseB v c (c_cid r') s4, (false, 0), f)
             else (s4, (false, 0), f)
         end
     | CloseConn c =>
@@ -146,7 +146,7 @@ Definition mstep (k : cfg) (l : lo) (sh : gst) : lo * gst :=
   let same := {| g := g sh; closing := closing sh |} in
   match fst l with
   | Some (KW c r' kind x isCtl) =>
-      if hs_rejected kind x || negb (write_ok c (g sh)) || negb (hs_block isCtl r') then ((None, prog), same)
+      if hs_rejected kind x || negb (write_ok c (g sh)) || negb (hs_block kind x isCtl r') then ((None, prog), same)
       else ((Some (KB1 c (c_cid r')), prog), same)
   | Some (KB1 c X) =>
       match hs_old c X (g sh) with
